@@ -724,7 +724,7 @@ impl World {
         b = b.loader(move |k: PKey| s2.load(&k));
       }
       PLoader::Async => {
-        let ex = Exec::start_pool(clock.clone(), 3);
+        let ex = Exec::start_pool(clock.clone(), 2);
         let s2 = sh.clone();
         b = b.async_loader(move |k: PKey| {
           let s2 = s2.clone();
@@ -1386,6 +1386,13 @@ fn diff(c: &Outcome, r: &Outcome) -> Vec<&'static str> {
   d
 }
 
+fn got_wid(r: &Res) -> Option<u64> {
+  match r {
+    Res::Opt(Some(v)) => Some(v.wid),
+    _ => None,
+  }
+}
+
 fn is_fetch_with(op: &POp) -> bool {
   matches!(op, POp::FetchWith { .. })
 }
@@ -1421,6 +1428,9 @@ pub fn execute(sc: &Scenario) -> Result<CaseReport, Failure> {
   let len_b = ref_ba.as_ref().map_or(0, |r| r.1.len_first);
   let nth_a = match sc.pa {
     Some(PausePt::Nth(i)) if len_a > 0 => 1 + vcore::idx(i, len_a as usize) as u32,
+    // the operation enters no closure / no loader on this state: suspend it in the middle of its events
+    Some(PausePt::Closure) if len_a > 0 && info_ab.first_closure_events == 0 => 1 + len_a / 2,
+    Some(PausePt::Loader) if len_a > 0 && info_ab.first_loader_events == 0 => 1 + len_a / 2,
     _ => 0,
   };
   let nth_b = match sc.pb {
@@ -1548,9 +1558,19 @@ pub fn execute(sc: &Scenario) -> Result<CaseReport, Failure> {
     }
     // C12: "No read API returns an entry at or after its expiry instant ... with stale-while-revalidate a
     // stale value is served by fetch_with only inside the grace window"
-    let (clause, which, got) = if !rb_ok { ("result_b_at_no_admissible_time", "B", &conc.rb) } else { ("result_a_at_no_admissible_time", "A", &conc.ra) };
+    let (mut clause, which, got) = if !rb_ok { ("result_b_at_no_admissible_time", "B", &conc.rb) } else { ("result_a_at_no_admissible_time", "A", &conc.ra) };
+    let mut p = "C12";
+    // a fetch_with that returned a fresh load although at every admissible time the key was resident and
+    // served without one — C15: "the loader runs exactly once per miss" (there was no miss); nothing
+    // expired was served
+    let op = if !rb_ok { &sc.b } else { &sc.a };
+    let seq = |o: &Outcome| if !rb_ok { o.rb.clone() } else { o.ra.clone() };
+    if is_fetch_with(op) && got_wid(got).map_or(false, |w| w >= LOAD_BASE) && *got != seq(&ref_ab) && *got != seq(&late) {
+      p = "C15";
+      clause = "load_at_no_admissible_time";
+    }
     return Err(fail(
-      "C12",
+      p,
       clause,
       format!(
         "{} || {}: the clock was stepped by {} ms while A was suspended ({:?}){}; {which} returned {got:?}; at the time before the step the sequential result is A={:?} B={:?}, after the step A={:?} B={:?}; admissible times for B: {:?} ms after the setup",
@@ -1671,7 +1691,7 @@ pub fn execute(sc: &Scenario) -> Result<CaseReport, Failure> {
 pub fn check(check: &mut Check) {
   let ctx = check.ctx.clone();
   let focus = Focus::of(&ctx.property);
-  let n = ctx.tier.pick(4_000u64, 400_000u64);
+  let n = ctx.tier.pick(2_500u64, 400_000u64);
   let n = std::env::var("VERIF_PAIR_CASES").ok().and_then(|s| s.parse().ok()).unwrap_or(n); // development aid
   // Shrinking budget: a failing pair costs a few pause timeouts per execution and proptest may try
   // thousands of simplifications; 25 s after the first failure only scenarios already known to fail are
